@@ -198,7 +198,7 @@ def gen_expr(rng, ids, depth=3, size=32):
 # mnemonic x operand-text pools: different mnemonics meet the SAME operand text
 ASM_MNEMO1 = ['inc', 'dec', 'push', 'pop', 'fld', 'fstp', 'neg', 'not', 'prefetcht0', 'prefetchw', 'call', 'jmp', 'fild', 'sete']
 ASM_MNEMO2 = ['mov', 'lea', 'add', 'cmp', 'xor', 'test', 'xchg', 'movzx', 'imul', 'and', 'sub', 'or']
-ASM_MEMTXT = ['[esi+12]', '[ebx+64]', 'DWORD PTR [ebx+4]', 'WORD PTR [ebx+4]', 'BYTE PTR [ebx+4]', 'WORD PTR 68', 'DWORD PTR 68', '[eax]',
+ASM_MEMTXT = ['[ebx+ecx]', '[ecx+ebx]', '[esi+ebp+1000]', '[ebp+esi+1000]', '[eax+edx*1]', '[esi+12]', '[ebx+64]', 'DWORD PTR [ebx+4]', 'WORD PTR [ebx+4]', 'BYTE PTR [ebx+4]', 'WORD PTR 68', 'DWORD PTR 68', '[eax]',
               '[esp+16+eax*4]', 'DWORD PTR [ebp-4]', '[ebx+ecx*4]', 'QWORD PTR [esp+8]', '[edx+eax]', 'dword ptr gs:20', 'toto[eax+8]', '8[ebp]']
 ASM_REGTXT = ['eax', 'ecx', 'edx', 'ebx', 'ax', 'cx', 'al', 'cl', 'ah', 'esi', 'edi']
 ASM_IMMTXT = ['0', '1', '5', '-1', '255', '0x1000', '66']
@@ -252,4 +252,25 @@ BYTES_FAMILIES = [
 BYTES_FAMILIES.append(['648b03', '268a01', '2e8a04', '658b0d00000000', 'a4', 'f3ab', 'a5', '8b03', '36890424', '3e8b4500', '64a100000000'])
 def gen_family_pool(rng, n=4):
     fam = rng.choice(BYTES_FAMILIES)
+    return [rng.choice(fam) for _ in range(n)]
+
+# families of related assembler lines: the same mnemonic over other register files / operand spellings / sizes
+LINE_FAMILIES = [
+    ['pxor mm0, mm1', 'pxor xmm0, xmm1', 'paddw mm2, mm3', 'paddw xmm2, xmm3', 'psubd mm0, mm1', 'psubd xmm0, xmm1', 'movd eax, mm1', 'movd eax, xmm1',
+     'psrld mm1, 1', 'psrld xmm1, 1', 'movq mm0, mm1', 'movq xmm0, xmm1'],
+    ['mov eax, [ebx+ecx]', 'mov eax, [ecx+ebx]', 'lea edx, [ebx+ecx]', 'lea edx, [ecx+ebx]', 'add [esi+ebp+1000], eax', 'add [ebp+esi+1000], eax',
+     'mov eax, [esi+ebp+1000]', 'mov eax, [ebp+esi+1000]'],
+    ['push 1 2 ecx', 'mov , eax', 'push ) ecx', 'mov eax, ebx', 'push ecx', 'lea , [eax]', 'mov eax ] ebx', 'inc , ', 'push 1', 'mov ecx, eax'],
+    ['mov al, 1', 'mov ax, 1', 'mov eax, 1', 'mov BYTE PTR [eax], 1', 'mov WORD PTR [eax], 1', 'mov DWORD PTR [eax], 1', 'push 1', 'push WORD PTR 1', 'pushw 1'],
+    ['jmp 2', 'jg 2', 'call 2', 'jmp eax', 'call eax', 'jmp [eax]', 'call [eax]', 'jmp DWORD PTR [eax]', 'loop 2', 'jecxz 2'],
+    ['fadd st, st(1)', 'fadd st(1), st', 'fsub st, st(2)', 'fsubr st, st(2)', 'fsub st(2), st', 'fdiv st, st(2)', 'fdivr st(2), st', 'faddp st(1), st', 'fadd DWORD PTR [eax]', 'fadd QWORD PTR [eax]'],
+]
+ATT_LINE_FAMILIES = [
+    ['pxor %mm1, %mm0', 'pxor %xmm1, %xmm0', 'paddw %mm3, %mm2', 'paddw %xmm3, %xmm2', 'movd %mm1, %eax', 'movd %xmm1, %eax', 'movq %mm1, %mm0', 'movq %xmm1, %xmm0'],
+    ['pushl ) %ecx', 'pushl 1 2 %ecx', 'pushl %ecx', 'movl , %eax', 'movl %ebx, %eax', 'incl', 'rep', 'lock', 'ret', 'nop'],
+    ['movl (%ebx,%ecx), %eax', 'movl (%ecx,%ebx), %eax', 'leal (%ebx,%ecx), %edx', 'leal (%ecx,%ebx), %edx', 'movl 1000(%esi,%ebp), %eax', 'movl 1000(%ebp,%esi), %eax'],
+    ['fsub %st, %st(2)', 'fsubr %st, %st(2)', 'fsub %st(2), %st', 'fdiv %st, %st(2)', 'fdivr %st, %st(2)', 'fadds (%eax)', 'faddl (%eax)'],
+]
+def gen_line_family(rng, att=False, n=4):
+    fam = rng.choice(ATT_LINE_FAMILIES if att else LINE_FAMILIES)
     return [rng.choice(fam) for _ in range(n)]
